@@ -6,7 +6,7 @@ VERUS_TECH = 'contract-based deductive verification (Verus/Z3) of functions extr
 
 PROPERTIES = {
     'C01': dict(
-        level='proof', verus=['rlabels', 'rbranch', 'rscan', 'rpool', 'rdecode', 'rframes', 'rattrs', 'rtables', 'raccept', 'rtree', 'rarms', 'rtypes', 'rpoolres', 'rannot', 'abuild'], kani=['flags'], enum=['cls', 'indy'],
+        level='proof', verus=['rlabels', 'rbranch', 'rscan', 'rpool', 'rdecode', 'rframes', 'rattrs', 'rtables', 'raccept', 'rtree', 'rarms', 'rtypes', 'rpoolres', 'rannot', 'abuild'], kani=['flags'], enum=['cls', 'indy', 'corpus'],
         technique=VERUS_TECH,
         claim='Unbounded proof, for the functions under contract only: the reader offset->Label table (bounds checks, exact lookup, frame, injectivity invariant), '
               'branch-target arithmetic and switch padding, the primitive big-endian readers, the header check (magic, every major version up to 67 whatever the minor), the constant-pool layout (JVMS 4.4, two slots for long/double), '
@@ -19,7 +19,7 @@ PROPERTIES = {
         out=['duke/src/class_reader.rs read_annotations_attribute / read_element_value* / read_type_annotations_* / read_module / read_record_component content', 'duke/src/class_reader/pool.rs get_loadable recursion through bootstrap methods',
              'duke/src/visitor/implementations/tree.rs (tree-building visitor)']),
     'C02': dict(
-        level='proof', verus=['cwrite', 'wjump', 'wpool', 'wencode', 'wattrs', 'wtypes', 'wannot', 'wput', 'wfrom', 'warms'], kani=['flags'], enum=['cls', 'indy'],
+        level='proof', verus=['cwrite', 'wjump', 'wpool', 'wencode', 'wattrs', 'wtypes', 'wannot', 'wput', 'wfrom', 'warms'], kani=['flags'], enum=['cls', 'indy', 'corpus'],
         technique=VERUS_TECH,
         claim='Unbounded proof, for the functions under contract only: every jump emitted by if_helper/goto_helper/switch_helper has exactly the narrow / wide / inverted-if+goto_w byte shape with the offset that lands on the label, '
               'the narrow form is chosen iff the offset fits i16, unresolved jumps reserve a slot whose recorded patch position and base are exact, put_i16_at/put_i32_at patch big-endian and touch nothing else, '
